@@ -1,3 +1,355 @@
 package main
 
-func (g *gen) emitAccess() {}
+// emitAccess regenerates the lock discipline facts (C07, C19, C20): for every struct of the anchored packages that is
+// shared between goroutines (listed in sharedStructs), every access to one of its fields in non-test code, with
+//   - the function, whether it is a write, and
+//   - the lock mode of the struct's own mutex at that point (none / R / W) and the index of the critical section.
+// The analysis is syntactic and intra-procedural: statements are walked in source order, `x.mu.Lock()` / `RLock()`
+// open a section for the mutex expression `x.mu`, `Unlock()` / `RUnlock()` close it, `defer x.mu.Unlock()` keeps it
+// open to the end of the function.  A helper documented as "called with the lock held" is listed in lockedCallees.
+// What the facts mean for the properties is decided by theorems over these tables (Props/C19.lean, C07.lean, C20.lean).
+
+import (
+	"fmt"
+	"go/ast"
+	"go/token"
+	"go/types"
+	"sort"
+	"strings"
+)
+
+// struct name -> name of its mutex field ("" = the struct has no mutex)
+var sharedStructs = map[string]map[string]string{
+	"recv": {"ChannelMgr": "mu", "channel": "mu", "Receiver": "mu"},
+	"app":  {"IPRequestLimiter": "mux", "cmafIngesterMgr": "", "cmafIngester": "", "assetMgr": "", "asset": "", "RepData": ""},
+}
+
+// helpers that are only called with the write lock of their receiver's mutex held: their accesses count as write-locked,
+// and every call site is recorded as an access of the pseudo field "call:<function>" so that a theorem can demand that
+// the calls are inside a write-locked section
+var lockedCallees = map[string]bool{
+	"recv.ChannelMgr.addChannel": true,
+}
+
+// fields guarded by another mutex of their struct than the default one
+var fieldMutex = map[string]string{
+	"recv.channel.mpd":       "mpdMu",
+	"recv.channel.startTime": "mpdMu",
+}
+
+type accessRec struct {
+	pkg, strct, field, fn string
+	write                 bool
+	mode                  string // "none" | "R" | "W"
+	section               int
+	pos                   string
+}
+
+func (g *gen) emitAccess() {
+	var recs []accessRec
+	type secCount struct{ r, w int }
+	sections := map[string]*secCount{} // pkg|func|mutexStruct
+	for _, short := range []string{"recv", "app"} {
+		p := g.pkgs[short]
+		if p == nil {
+			continue
+		}
+		shared := sharedStructs[short]
+		structOf := func(t types.Type) string {
+			for {
+				if pt, ok := t.(*types.Pointer); ok {
+					t = pt.Elem()
+					continue
+				}
+				break
+			}
+			if n, ok := t.(*types.Named); ok {
+				if _, isShared := shared[n.Obj().Name()]; isShared && n.Obj().Pkg() == p.Types {
+					return n.Obj().Name()
+				}
+			}
+			return ""
+		}
+		for _, f := range p.Syntax {
+			fname := g.fset.Position(f.Pos()).Filename
+			if strings.HasSuffix(fname, "_test.go") || strings.HasSuffix(fname, "verif_export.go") {
+				continue
+			}
+			for _, d := range f.Decls {
+				fd, ok := d.(*ast.FuncDecl)
+				if !ok || fd.Body == nil {
+					continue
+				}
+				fn := fd.Name.Name
+				if fd.Recv != nil && len(fd.Recv.List) > 0 {
+					fn = strings.TrimPrefix(g.exprText(fd.Recv.List[0].Type), "*") + "." + fn
+				}
+				held := map[string]string{} // mutex expression text -> "R" | "W"
+				secIdx := map[string]int{}
+				writes := map[ast.Expr]bool{}
+				markWrite := func(e ast.Expr) {
+					for {
+						switch x := e.(type) {
+						case *ast.IndexExpr:
+							e = x.X
+							continue
+						case *ast.ParenExpr:
+							e = x.X
+							continue
+						case *ast.StarExpr:
+							e = x.X
+							continue
+						}
+						break
+					}
+					writes[e] = true
+				}
+				// first pass: which selector expressions are written
+				ast.Inspect(fd.Body, func(n ast.Node) bool {
+					switch x := n.(type) {
+					case *ast.AssignStmt:
+						for _, l := range x.Lhs {
+							markWrite(l)
+						}
+					case *ast.IncDecStmt:
+						markWrite(x.X)
+					case *ast.CallExpr:
+						if id, ok := x.Fun.(*ast.Ident); ok && id.Name == "delete" && len(x.Args) > 0 {
+							markWrite(x.Args[0])
+						}
+					}
+					return true
+				})
+				// second pass in source order
+				var walk func(n ast.Node)
+				visitExpr := func(e ast.Node) {
+					ast.Inspect(e, func(n ast.Node) bool {
+						if _, isFunc := n.(*ast.FuncLit); isFunc {
+							// closures (e.g. the upload callback) run in the same goroutine: walk them in place
+							return true
+						}
+						if call, ok := n.(*ast.CallExpr); ok {
+							if cse, ok := call.Fun.(*ast.SelectorExpr); ok {
+								if csel := p.TypesInfo.Selections[cse]; csel != nil && csel.Kind() == types.MethodVal {
+									sn := structOf(csel.Recv())
+									if sn != "" && lockedCallees[short+"."+sn+"."+cse.Sel.Name] {
+										mode, sec := "none", 0
+										key := g.exprText(cse.X) + "." + shared[sn]
+										if m, ok := held[key]; ok {
+											mode, sec = m, secIdx[key]
+										}
+										recs = append(recs, accessRec{pkg: short, strct: sn, field: "call:" + cse.Sel.Name, fn: fn, write: true, mode: mode, section: sec, pos: g.pos(call.Pos())})
+									}
+								}
+							}
+						}
+						se, ok := n.(*ast.SelectorExpr)
+						if !ok {
+							return true
+						}
+						sel := p.TypesInfo.Selections[se]
+						if sel == nil || sel.Kind() != types.FieldVal {
+							return true
+						}
+						sn := structOf(sel.Recv())
+						if sn == "" {
+							return true
+						}
+						mfield := shared[sn]
+						if fm, ok := fieldMutex[short+"."+sn+"."+se.Sel.Name]; ok {
+							mfield = fm
+						}
+						if t := p.TypesInfo.TypeOf(se); t != nil && (strings.HasSuffix(t.String(), "sync.Mutex") || strings.HasSuffix(t.String(), "sync.RWMutex")) {
+							return true // a mutex itself
+						}
+						mode, sec := "none", 0
+						if lockedCallees[short+"."+fn] {
+							mode, sec = "W", 1
+						} else if mfield != "" {
+							key := g.exprText(se.X) + "." + mfield
+							if m, ok := held[key]; ok {
+								mode, sec = m, secIdx[key]
+							}
+						}
+						recs = append(recs, accessRec{pkg: short, strct: sn, field: se.Sel.Name, fn: fn, write: writes[ast.Expr(se)], mode: mode, section: sec, pos: g.pos(se.Pos())})
+						return true
+					})
+				}
+				lockCall := func(call *ast.CallExpr) (mutex, op string, ok bool) {
+					se, ok2 := call.Fun.(*ast.SelectorExpr)
+					if !ok2 {
+						return "", "", false
+					}
+					switch se.Sel.Name {
+					case "Lock", "RLock", "Unlock", "RUnlock":
+						t := p.TypesInfo.TypeOf(se.X)
+						if t == nil {
+							return "", "", false
+						}
+						ts := t.String()
+						if strings.HasSuffix(ts, "sync.Mutex") || strings.HasSuffix(ts, "sync.RWMutex") {
+							return g.exprText(se.X), se.Sel.Name, true
+						}
+					}
+					return "", "", false
+				}
+				walk = func(n ast.Node) {
+					switch x := n.(type) {
+					case nil:
+						return
+					case *ast.BlockStmt:
+						for _, s := range x.List {
+							walk(s)
+						}
+					case *ast.ExprStmt:
+						if call, ok := x.X.(*ast.CallExpr); ok {
+							if mu, op, ok := lockCall(call); ok {
+								sk := short + "|" + fn + "|" + mu
+								if sections[sk] == nil {
+									sections[sk] = &secCount{}
+								}
+								switch op {
+								case "Lock":
+									held[mu] = "W"
+									secIdx[mu]++
+									sections[sk].w++
+								case "RLock":
+									held[mu] = "R"
+									secIdx[mu]++
+									sections[sk].r++
+								default:
+									delete(held, mu)
+								}
+								return
+							}
+						}
+						visitExpr(x)
+					case *ast.DeferStmt:
+						if _, _, ok := lockCall(x.Call); ok {
+							return // unlock at function end: the section stays open
+						}
+						visitExpr(x.Call)
+					case *ast.IfStmt:
+						walk(x.Init)
+						visitExpr(x.Cond)
+						walk(x.Body)
+						walk(x.Else)
+					case *ast.ForStmt:
+						walk(x.Init)
+						if x.Cond != nil {
+							visitExpr(x.Cond)
+						}
+						walk(x.Post)
+						walk(x.Body)
+					case *ast.RangeStmt:
+						visitExpr(x.X)
+						walk(x.Body)
+					case *ast.SwitchStmt:
+						walk(x.Init)
+						if x.Tag != nil {
+							visitExpr(x.Tag)
+						}
+						walk(x.Body)
+					case *ast.TypeSwitchStmt:
+						walk(x.Init)
+						walk(x.Assign)
+						walk(x.Body)
+					case *ast.SelectStmt:
+						walk(x.Body)
+					case *ast.CaseClause:
+						for _, e := range x.List {
+							visitExpr(e)
+						}
+						for _, s := range x.Body {
+							walk(s)
+						}
+					case *ast.CommClause:
+						walk(x.Comm)
+						for _, s := range x.Body {
+							walk(s)
+						}
+					case *ast.LabeledStmt:
+						walk(x.Stmt)
+					case *ast.GoStmt:
+						visitExpr(x.Call)
+					default:
+						// assignments, returns, declarations, sends, inc/dec, ... : expressions in source order;
+						// function literals inside are walked as statements so that their lock calls are seen
+						handled := false
+						ast.Inspect(n, func(m ast.Node) bool {
+							if fl, ok := m.(*ast.FuncLit); ok {
+								handled = true
+								walk(fl.Body)
+								return false
+							}
+							return true
+						})
+						if !handled {
+							visitExpr(n)
+						} else {
+							// visit the non-closure parts
+							ast.Inspect(n, func(m ast.Node) bool {
+								if _, ok := m.(*ast.FuncLit); ok {
+									return false
+								}
+								if se, ok := m.(*ast.SelectorExpr); ok {
+									visitExpr(se)
+									return false
+								}
+								return true
+							})
+						}
+					}
+				}
+				walk(fd.Body)
+			}
+		}
+	}
+	sort.Slice(recs, func(i, j int) bool {
+		a, b := recs[i], recs[j]
+		ka := fmt.Sprintf("%s|%s|%s|%s|%v|%s|%03d|%s", a.pkg, a.strct, a.field, a.fn, a.write, a.mode, a.section, a.pos)
+		kb := fmt.Sprintf("%s|%s|%s|%s|%v|%s|%03d|%s", b.pkg, b.strct, b.field, b.fn, b.write, b.mode, b.section, b.pos)
+		return ka < kb
+	})
+	// collapse identical (ignoring position) records
+	type key struct {
+		pkg, strct, field, fn, mode string
+		write                     bool
+		section                   int
+	}
+	seen := map[key]bool{}
+	var sb strings.Builder
+	sb.WriteString(header)
+	sb.WriteString("namespace Gen\n\n/-- package, struct, field, function, isWrite, lock mode of the struct's own mutex (\"none\", \"R\", \"W\"), critical-section index -/\n")
+	sb.WriteString("def accesses : List (String × String × String × String × Bool × String × Nat) := [\n")
+	first := true
+	for _, r := range recs {
+		k := key{r.pkg, r.strct, r.field, r.fn, r.mode, r.write, r.section}
+		if seen[k] {
+			continue
+		}
+		seen[k] = true
+		if !first {
+			sb.WriteString(",\n")
+		}
+		first = false
+		fmt.Fprintf(&sb, "  (%s, %s, %s, %s, %v, %s, %d)", leanStr(r.pkg), leanStr(r.strct), leanStr(r.field), leanStr(r.fn), r.write, leanStr(r.mode), r.section)
+	}
+	sb.WriteString("\n]\n\n/-- package|function|mutex expression: number of read-locked and write-locked critical sections -/\n")
+	sb.WriteString("def lockSections : List (String × Nat × Nat) := [\n")
+	var sk []string
+	for k := range sections {
+		sk = append(sk, k)
+	}
+	sort.Strings(sk)
+	for i, k := range sk {
+		sep := ","
+		if i == len(sk)-1 {
+			sep = ""
+		}
+		fmt.Fprintf(&sb, "  (%s, %d, %d)%s\n", leanStr(k), sections[k].r, sections[k].w, sep)
+	}
+	sb.WriteString("]\n\nend Gen\n")
+	g.files["Access.lean"] = sb.String()
+	_ = token.NoPos
+}
